@@ -1029,8 +1029,58 @@ Section ReaderQueue.
   Qed.
 End ReaderQueue.
 
+(* ================================================================== no exception for what the reader outputs *)
+Section Strict.
+  Variable root : bytes.
+  Hypothesis Hne : root <> [].
+  Hypothesis Hsep : last_is_sep root = false.
+
+  (* a mask that never reports the parent: every event is about the (rooted) path itself *)
+  Lemma emit_single_noparent full rec wp ct x :
+    noparent (r_mask x) = true -> rooted root (r_path x) ->
+    forall e, In e (fst (emit_single full rec wp ct x)) -> ev_ok root e.
+  Proof.
+    intros Hnp Hx e Hin. unfold noparent in Hnp.
+    apply andb_true_iff in Hnp as [Hnp H5]. apply andb_true_iff in Hnp as [Hnp H4].
+    apply andb_true_iff in Hnp as [Hnp H3]. apply andb_true_iff in Hnp as [H1 H2].
+    apply negb_true_iff in H1, H2, H3, H4.
+    unfold emit_single in Hin. rewrite H1, H2, H3, H4 in Hin. cbn [orb andb] in Hin.
+    destruct (is_attrib (r_mask x) || is_modify (r_mask x)).
+    { destruct Hin as [<-|[]]. now apply mk_src_ok. }
+    destruct (is_delete_self (r_mask x) && beqb (r_path x) wp).
+    { destruct Hin as [<-|[]]. now apply mk_src_ok. }
+    destruct (is_directory (r_mask x)); cbn [negb] in Hin; [contradiction|].
+    rewrite orb_false_r in H5. apply negb_true_iff in H5. rewrite H5 in Hin.
+    destruct (is_open (r_mask x)); [destruct Hin as [<-|[]]; now apply mk_src_ok|].
+    destruct (is_close_nowrite (r_mask x)); [destruct Hin as [<-|[]]; now apply mk_src_ok | contradiction].
+  Qed.
+
+  (* an item as the pipeline delivers it: a single record the reader produced, or a pair of records about entries
+     strictly below the root (the two halves of a rename always carry names) *)
+  Definition item_strict (it : Emitter.item) : Prop :=
+    match it with
+    | Single x => raw_ok root x
+    | Pair f t => below root (r_path f) /\ below root (r_path t)
+    end.
+
+  Theorem emit_paths_strict full rec wp ct it :
+    item_strict it -> (forall p, wf_tree (ct p) = true) ->
+    forall e, In e (fst (emit full rec wp ct it)) -> ev_ok root e.
+  Proof.
+    intros Hit Hc e Hin. destruct it as [x|f t]; cbn [item_strict] in Hit.
+    - destruct Hit as [Hb|[Hr Hnp]].
+      + eapply (emit_paths_below root Hne Hsep full rec wp ct (Single x)); [|exact Hc|exact Hin].
+        intros r [<-|[]]. exact Hb.
+      + cbn [emit] in Hin. eapply emit_single_noparent; eauto.
+    - destruct Hit as [Hf Ht].
+      eapply (emit_paths_below root Hne Hsep full rec wp ct (Pair f t)); [|exact Hc|exact Hin].
+      intros r [<-|[<-|[]]]; assumption.
+  Qed.
+End Strict.
+
 (* ================================================================== the pipeline *)
-Require Import WD.Model.DelayQueue WD.Model.Grouping WD.Model.Pipeline.
+Require Import WD.Model.DelayQueue WD.Model.Grouping WD.Model.Pipeline
+               WD.Proofs.DelayQueueProofs WD.Proofs.GroupingProofs.
 
 Lemma Forall_firstn' {A} (Q : A -> Prop) n : forall l, Forall Q l -> Forall Q (firstn n l).
 Proof. induction n as [|n IH]; intros [|x l] H; cbn; try constructor; inversion H; subst; auto. Qed.
@@ -1038,12 +1088,57 @@ Proof. induction n as [|n IH]; intros [|x l] H; cbn; try constructor; inversion 
 Lemma Forall_skipn' {A} (Q : A -> Prop) n : forall l, Forall Q l -> Forall Q (skipn n l).
 Proof. induction n as [|n IH]; intros [|x l] H; cbn; try assumption; inversion H; subst; auto. Qed.
 
+Lemma alookup_app_some {V} k (m m' : list (N * V)) v :
+  alookup N.eqb k m = Some v -> alookup N.eqb k (m ++ m') = Some v.
+Proof.
+  induction m as [|[k' v'] m IH]; cbn; [discriminate|]. destruct (N.eqb k k'); [auto | exact IH].
+Qed.
+
+Lemma alookup_app_none {V} k (m m' : list (N * V)) :
+  alookup N.eqb k m = None -> alookup N.eqb k (m ++ m') = alookup N.eqb k m'.
+Proof.
+  induction m as [|[k' v'] m IH]; cbn; [reflexivity|]. destruct (N.eqb k k'); [discriminate | exact IH].
+Qed.
+
+Lemma alookup_fresh {V} k (m : list (N * V)) : (forall i x, In (i, x) m -> i <> k) -> alookup N.eqb k m = None.
+Proof.
+  induction m as [|[k' v'] m IH]; cbn; intros H; [reflexivity|].
+  destruct (N.eqb k k') eqn:E.
+  - apply N.eqb_eq in E. subst. exfalso. eapply H; [left; reflexivity | reflexivity].
+  - apply IH. intros i x Hin. apply (H i x). right. exact Hin.
+Qed.
+
 Lemma number_in C : forall l n a b i x, number C n l = (a, b) -> In (i, x) b -> In x l.
 Proof.
   induction l as [|e l IH]; intros n a b i x H Hin; cbn [number] in H.
   - inversion H; subst. contradiction.
   - destruct (number C (n + 1) l) as [a' b'] eqn:E. inversion H; subst.
     destruct Hin as [Hin|Hin]; [inversion Hin; subst; left; reflexivity | right; eapply IH; eauto].
+Qed.
+
+Lemma number_ids C : forall l n a b, number C n l = (a, b) ->
+  (forall e, In e a -> (n <= n_id e < n + N.of_nat (length l))%N) /\
+  (forall i x, In (i, x) b -> (n <= i < n + N.of_nat (length l))%N).
+Proof.
+  induction l as [|e l IH]; intros n a b H; cbn [number] in H.
+  - inversion H; subst. split; intros; contradiction.
+  - destruct (number C (n + 1) l) as [a' b'] eqn:E. inversion H; subst; clear H.
+    destruct (IH _ _ _ E) as [H1 H2]. cbn [length]. split.
+    + intros e0 [<-|Hin]; [cbn; lia|]. specialize (H1 _ Hin). lia.
+    + intros i x [Hin|Hin]; [inversion Hin; subst; lia|]. specialize (H2 _ _ Hin). lia.
+Qed.
+
+Lemma number_lookup C : forall l n a b, number C n l = (a, b) ->
+  forall e, In e a -> exists r, alookup N.eqb (n_id e) b = Some r /\ n_kind e = nkind_of C r.
+Proof.
+  induction l as [|x l IH]; intros n a b H e Hin; cbn [number] in H.
+  - inversion H; subst. contradiction.
+  - destruct (number C (n + 1) l) as [a' b'] eqn:E. inversion H; subst; clear H.
+    destruct Hin as [<-|Hin].
+    + exists x. cbn. rewrite N.eqb_refl. split; reflexivity.
+    + destruct (IH _ _ _ E e Hin) as [r [Hr Hk]]. exists r. split; [|exact Hk].
+      cbn. destruct (N.eqb (n_id e) n) eqn:En; [|exact Hr].
+      apply N.eqb_eq in En. destruct (number_ids C _ _ _ _ E) as [H1 _]. specialize (H1 _ Hin). lia.
 Qed.
 
 Lemma item_to_emit_raws tbl it eit :
@@ -1057,22 +1152,155 @@ Proof.
     intros x [<-|[<-|[]]]; [apply alookup_in in E1 as [i [Hin _]] | apply alookup_in in E2 as [i [Hin _]]]; eauto.
 Qed.
 
+(* ---------------------------------------------------------------- the buffer keeps kinds and pairs honest *)
+Section BufInv.
+  Variable C : cfg.
+
+  (* the native event's kind is the kind of the InotifyEvent recorded under its id *)
+  Definition kind_ok (tbl : list (N * raw)) (e : nev) : Prop :=
+    exists r, raw_of tbl e = Some r /\ n_kind e = nkind_of C r.
+
+  Definition pair_wk (it : Grouping.item) : Prop :=
+    match it with
+    | ISingle _ => True
+    | IPair f t => (exists c, n_kind f = KFrom c) /\ (exists c, n_kind t = KTo c)
+    end.
+
+  Definition item_wk (tbl : list (N * raw)) (it : Grouping.item) : Prop :=
+    pair_wk it /\ forall e, In e (flat it) -> kind_ok tbl e.
+
+  Record BInv (tbl : list (N * raw)) (r : rst) : Prop := mkBInv {
+    bi_batch : forall e, In e (batch r) -> kind_ok tbl e;
+    bi_grouped : forall it, In it (grouped r) -> item_wk tbl it;
+    bi_items : forall id it, In (id, it) (items r) -> item_wk tbl it }.
+
+  Lemma kind_ok_ext tbl tbl' e : kind_ok tbl e -> kind_ok (tbl ++ tbl') e.
+  Proof. intros [r [H1 H2]]. exists r. split; [|exact H2]. unfold raw_of in *. now apply alookup_app_some. Qed.
+
+  Lemma item_wk_ext tbl tbl' it : item_wk tbl it -> item_wk (tbl ++ tbl') it.
+  Proof. intros [H1 H2]. split; [exact H1|]. intros e He. apply kind_ok_ext. now apply H2. Qed.
+
+  Lemma binv_ext tbl tbl' r : BInv tbl r -> BInv (tbl ++ tbl') r.
+  Proof.
+    intros [H1 H2 H3]. constructor.
+    - intros e He. apply kind_ok_ext. now apply H1.
+    - intros it Hit. apply item_wk_ext. now apply H2.
+    - intros id it Hit. apply item_wk_ext. eapply H3; eauto.
+  Qed.
+
+  Lemma single_wk tbl e : kind_ok tbl e -> item_wk tbl (ISingle e).
+  Proof. intros H. split; [exact I|]. intros e' [<-|[]]. exact H. Qed.
+
+  Lemma gstep_binv delay tbl s l s' :
+    BInv tbl (snd s) -> (forall b, l = RRead b -> forall e, In e b -> kind_ok tbl e) ->
+    gstep delay s l = Some s' -> BInv tbl (snd s').
+  Proof.
+    destruct s as [d r]. cbn [snd]. intros [B1 B2 B3] Hl H. destruct l as [b | | | l]; cbn [gstep] in H.
+    - destruct (batch r); [|discriminate]. destruct (grouped r); [|discriminate].
+      destruct (deleted_self r); [discriminate|]. inversion H; subst; clear H. cbn [snd].
+      constructor; cbn; [intros e He; eapply Hl; eauto | intros ? [] | exact B3].
+    - destruct (batch r) as [|e rest] eqn:Eb; [discriminate|].
+      assert (He : kind_ok tbl e) by (apply B1; left; reflexivity).
+      assert (Hrest : forall e', In e' rest -> kind_ok tbl e') by (intros e' H'; apply B1; right; exact H').
+      assert (Hsingle : forall d0 : st,
+        BInv tbl (snd (d0, {| batch := rest; grouped := grouped r ++ [ISingle e]; deleted_self := deleted_self r;
+                              next_el := next_el r; items := items r; nread := nread r |}))).
+      { intros d0. constructor; cbn; [exact Hrest | | exact B3].
+        intros it Hit. apply in_app_iff in Hit as [Hit|[<-|[]]]; [now apply B2 | now apply single_wk]. }
+      destruct (n_kind e) as [c|c| | |] eqn:Ek; try (inversion H; subst; apply Hsingle).
+      destruct (pair_in_grouped c e (grouped r)) as [g'|] eqn:Ep.
+      + inversion H; subst; clear H. cbn [snd].
+        apply pair_in_grouped_spec in Ep as [a [f [b [Hg [-> [Hkf _]]]]]].
+        constructor; cbn; [exact Hrest | | exact B3].
+        intros it Hit. apply in_app_iff in Hit as [Hit|[<-|Hit]].
+        * apply B2. rewrite Hg. apply in_app_iff. left. exact Hit.
+        * split; [split; eauto|]. intros e' [<-|[<-|[]]]; [|exact He].
+          assert (Hf : item_wk tbl (ISingle f)) by (apply B2; rewrite Hg; apply in_app_iff; right; left; reflexivity).
+          apply Hf. left. reflexivity.
+        * apply B2. rewrite Hg. apply in_app_iff. right. right. exact Hit.
+      + destruct (remove_first (sat_from (items r) c (q d)) (q d)) as [[en|] q'] eqn:Er.
+        * destruct (step delay d (Remove (sat_from (items r) c (q d)))) as [d'|]; [|discriminate].
+          destruct (item_of (items r) (e_id en)) as [[f|? ?]|] eqn:Ei; try discriminate.
+          inversion H; subst; clear H. cbn [snd].
+          apply remove_first_some in Er as [qa [qb [_ [_ Hm]]]].
+          assert (Hkf : n_kind f = KFrom c).
+          { assert (Hin : In (e_id en) (sat_from (items r) c (q d))).
+            { clear -Hm. induction (sat_from (items r) c (q d)) as [|y l IH]; cbn in Hm; [discriminate|].
+              apply orb_true_iff in Hm as [Hm|Hm]; [left; symmetry; now apply N.eqb_eq | right; now apply IH]. }
+            unfold sat_from in Hin. apply in_map_iff in Hin as [en' [Hid Hin]].
+            apply filter_In in Hin as [_ Hp]. rewrite Hid, Ei in Hp.
+            apply is_from_single in Hp as [f' [Hf' Hk]]. inversion Hf'; subst. exact Hk. }
+          assert (Hf : item_wk tbl (ISingle f)).
+          { unfold item_of in Ei. apply alookup_in in Ei as [id' [Hin _]]. eapply B3; eauto. }
+          constructor; cbn; [exact Hrest | | exact B3].
+          intros it Hit. apply in_app_iff in Hit as [Hit|[<-|[]]]; [now apply B2|].
+          split; [split; eauto|]. intros e' [<-|[<-|[]]]; [|exact He]. apply Hf. left. reflexivity.
+        * inversion H; subst. apply Hsingle.
+    - destruct (batch r); [|discriminate]. destruct (grouped r) as [|it rest] eqn:Eg; [discriminate|].
+      assert (Hit : item_wk tbl it) by (apply B2; left; reflexivity).
+      assert (Hrest : forall it', In it' rest -> item_wk tbl it') by (intros it' H'; apply B2; right; exact H').
+      destruct it as [e|f t].
+      + destruct (Grouping.is_ignored e).
+        * inversion H; subst; clear H. constructor; cbn; [intros ? [] | exact Hrest | exact B3].
+        * destruct (step delay d (Put (next_el r) (single_from (ISingle e)))) as [d'|]; [|discriminate].
+          inversion H; subst; clear H. constructor; cbn; [intros ? [] | exact Hrest |].
+          intros id it' Hin. apply in_app_iff in Hin as [Hin|[Hin|[]]]; [eapply B3; eauto|].
+          inversion Hin; subst. exact Hit.
+      + destruct (step delay d (Put (next_el r) false)) as [d'|]; [|discriminate].
+        inversion H; subst; clear H. constructor; cbn; [intros ? [] | exact Hrest |].
+        intros id it' Hin. apply in_app_iff in Hin as [Hin|[Hin|[]]]; [eapply B3; eauto|].
+        inversion Hin; subst. exact Hit.
+    - destruct l; try discriminate;
+        (destruct (step delay d _) as [d'|]; [|discriminate]; inversion H; subst; constructor; assumption).
+  Qed.
+
+  Lemma reader_run_binv delay tbl : forall fuel b, BInv tbl (snd b) -> BInv tbl (snd (reader_run delay fuel b)).
+  Proof.
+    induction fuel as [|f IH]; intros b Hb; cbn [reader_run]; [exact Hb|].
+    destruct (batch (snd b)) eqn:E1.
+    - destruct (grouped (snd b)) eqn:E2; [exact Hb|].
+      destruct (gstep delay b RPut) as [b'|] eqn:E; [|exact Hb].
+      apply IH. apply (gstep_binv delay tbl b RPut b' Hb); [intros ? Hx; discriminate Hx | exact E].
+    - destruct (gstep delay b RGroup) as [b'|] eqn:E; [|exact Hb].
+      apply IH. apply (gstep_binv delay tbl b RGroup b' Hb); [intros ? Hx; discriminate Hx | exact E].
+  Qed.
+
+  Lemma delivered_in b it : In it (delivered b) -> exists id, In (id, it) (items (snd b)).
+  Proof.
+    unfold delivered, items_of. intros H. apply in_flat_map in H as [id [_ H]].
+    destruct (item_of (items (snd b)) id) as [it'|] eqn:E; [|contradiction]. destruct H as [<-|[]].
+    unfold item_of in E. apply alookup_in in E as [id' [Hin _]]. eauto.
+  Qed.
+
+  Lemma nkind_from r c : nkind_of C r = KFrom c -> is_moved_from (r_mask r) = true.
+  Proof.
+    unfold nkind_of. destruct (is_moved_from (r_mask r)); [reflexivity|].
+    destruct (is_moved_to (r_mask r)); [discriminate|]. destruct (Emitter.is_ignored (r_mask r)); [discriminate|].
+    destruct (is_delete_self (r_mask r)); discriminate.
+  Qed.
+
+  Lemma nkind_to r c : nkind_of C r = KTo c -> is_moved_to (r_mask r) = true.
+  Proof.
+    unfold nkind_of. destruct (is_moved_from (r_mask r)); [discriminate|].
+    destruct (is_moved_to (r_mask r)); [reflexivity|]. destruct (Emitter.is_ignored (r_mask r)); [discriminate|].
+    destruct (is_delete_self (r_mask r)); discriminate.
+  Qed.
+End BufInv.
+
 Section PipeInv.
   Variable P : pcfg.
   Hypothesis Hne : c_root (pc_reader P) <> [].
   Hypothesis Hsep : last_is_sep (c_root (pc_reader P)) = false.
   Notation root := (c_root (pc_reader P)).
 
-  (* what C19 allows of a delivered event: both paths empty or rooted; the one event outside the statement is
-     DirModifiedEvent(dirname(root)) *)
-  Definition out_ok (e : nevent) : Prop := ev_ok root e \/ e = parent_modified root.
-
   Record PInv (s : pstate) : Prop := mkPInv {
     pv_fs : fs_names_ok (w_fs (p_world s));
     pv_q : kqueue_ok (p_k s);
     pv_r : path_inv root (p_r s);
     pv_tbl : forall i x, In (i, x) (p_tbl s) -> raw_ok root x;
-    pv_out : forall e, In e (p_out s) -> out_ok e }.
+    pv_ids : forall i x, In (i, x) (p_tbl s) -> (i < p_next s)%N;
+    pv_buf : BInv (pc_reader P) (p_tbl s) (snd (p_buf s));
+    pv_out : forall e, In e (p_out s) -> ev_ok root e }.
 
   Lemma pinit_inv w s : fs_names_ok (w_fs w) -> pinit P w = Some s -> PInv s.
   Proof.
@@ -1092,13 +1320,41 @@ Section PipeInv.
       rewrite Hq. constructor.
     - eapply construct_inv; eauto.
     - intros ? ? [].
+    - intros ? ? [].
+    - constructor; cbn; [intros ? [] | intros ? [] | intros ? ? []].
     - intros ? [].
+  Qed.
+
+  (* the item handed to queue_events: a single reader record, or the two halves of a rename (both named) *)
+  Lemma delivered_strict tbl b it eit :
+    (forall i x, In (i, x) tbl -> raw_ok root x) -> BInv (pc_reader P) tbl (snd b) ->
+    In it (delivered b) -> item_to_emit tbl it = Some eit -> item_strict root eit.
+  Proof.
+    intros Htbl Hb Hin Hit.
+    assert (Hraw : forall x, In x (item_raws eit) -> raw_ok root x).
+    { intros x Hx. eapply item_to_emit_raws in Hx as [i Hi]; [|exact Hit]. eauto. }
+    apply delivered_in in Hin as [id Hin]. apply (bi_items _ _ _ Hb) in Hin as [Hwk Hk].
+    destruct it as [e|f t]; unfold item_to_emit in Hit.
+    - destruct (raw_of tbl e) as [r|]; [|discriminate]. inversion Hit; subst. apply Hraw. left. reflexivity.
+    - destruct (raw_of tbl f) as [a|] eqn:Ea; [|discriminate].
+      destruct (raw_of tbl t) as [b0|] eqn:Eb; [|discriminate]. inversion Hit; subst; clear Hit.
+      destruct Hwk as [[c1 Hf] [c2 Ht]].
+      destruct (Hk f (or_introl eq_refl)) as [a' [Ha' Hka]]. rewrite Ea in Ha'. inversion Ha'; subst a'.
+      destruct (Hk t (or_intror (or_introl eq_refl))) as [b' [Hb' Hkb]]. rewrite Eb in Hb'. inversion Hb'; subst b'.
+      rewrite Hf in Hka. symmetry in Hka. apply nkind_from in Hka.
+      rewrite Ht in Hkb. symmetry in Hkb. apply nkind_to in Hkb.
+      assert (Hnp : forall m, noparent m = true -> is_moved_from m = false /\ is_moved_to m = false).
+      { intros m Hm. unfold noparent in Hm. repeat (apply andb_true_iff in Hm as [Hm ?]).
+        split; now apply negb_true_iff. }
+      split.
+      + destruct (Hraw a (or_introl eq_refl)) as [H|[_ H]]; [exact H|]. apply Hnp in H as [H _]. congruence.
+      + destruct (Hraw b0 (or_intror (or_introl eq_refl))) as [H|[_ H]]; [exact H|]. apply Hnp in H as [_ H]. congruence.
   Qed.
 
   Lemma pstep_inv s a s' ob :
     PInv s -> (forall o, a = AOp o -> op_names_ok o) -> pstep P s a = Done (s', ob) -> PInv s'.
   Proof.
-    intros [I1 I2 I3 I4 I5] Ha H. destruct a as [o | n | | d]; cbn [pstep] in H.
+    intros [I1 I2 I3 I4 I5 I6 I7] Ha H. destruct a as [o | n | | d]; cbn [pstep] in H.
     - destruct (apply_op (p_world s) o) as [w'|] eqn:E; inversion H; subst; clear H; [|constructor; assumption].
       constructor; cbn; try assumption.
       + eapply apply_op_names; eauto.
@@ -1110,18 +1366,34 @@ Section PipeInv.
       destruct (read_batch_inv _ Hne Hsep _ _ _ _ _ _ _ _ I1 I3 (Forall_nil _) Hb E) as [Hr' Hevs].
       apply read_batch_queue in E. cbn [k_queue] in E.
       destruct (number (pc_reader P) (p_next s) evs) as [nevs tbl] eqn:En.
-      destruct (gstep (pc_delay P) (p_buf s) (RRead nevs)); inversion H; subst; clear H; [|constructor; assumption].
+      destruct (gstep (pc_delay P) (p_buf s) (RRead nevs)) as [b1|] eqn:Eg;
+        inversion H; subst; clear H; [|constructor; assumption].
+      destruct (number_ids _ _ _ _ _ En) as [Hid1 Hid2].
       constructor; cbn; try assumption.
       + unfold kqueue_ok. rewrite E. now apply Forall_skipn'.
       + intros i x Hin. apply in_app_iff in Hin as [Hin|Hin]; [eauto|].
         eapply number_in in Hin; [|exact En]. rewrite Forall_forall in Hevs. now apply Hevs.
+      + intros i x Hin. apply in_app_iff in Hin as [Hin|Hin].
+        * specialize (I5 _ _ Hin). lia.
+        * specialize (Hid2 _ _ Hin). lia.
+      + apply reader_run_binv.
+        apply (gstep_binv (pc_reader P) (pc_delay P) (p_tbl s ++ tbl) (p_buf s) (RRead nevs) b1);
+          [now apply binv_ext | | exact Eg].
+        intros b0 Hb0 e He. inversion Hb0; subst b0.
+        destruct (number_lookup _ _ _ _ _ En e He) as [r [Hr Hk]]. exists r. split; [|exact Hk].
+        unfold raw_of. rewrite alookup_app_none; [exact Hr|].
+        apply alookup_fresh. intros i x Hin. specialize (I5 _ _ Hin). specialize (Hid1 _ He). lia.
     - destruct (p_stopped s); [inversion H; subst; constructor; assumption|].
-      repeat match type of H with
-             | match ?x with Some _ => _ | None => _ end = _ =>
-               let E := fresh "E" in destruct x eqn:E; [|inversion H; subst; constructor; assumption]
-             | match ?x with [] => _ | _ :: _ => _ end = _ =>
-               destruct x; [inversion H; subst; constructor; assumption|]
-             end.
+      destruct (gstep (pc_delay P) (p_buf s) (Q GetEnter)) as [b1|] eqn:E1; [|inversion H; subst; constructor; assumption].
+      destruct (gstep (pc_delay P) b1 (Q GetDelay)) as [b2|] eqn:E2; [|inversion H; subst; constructor; assumption].
+      destruct (gstep (pc_delay P) b2 (Q GetPop)) as [b3|] eqn:E3; [|inversion H; subst; constructor; assumption].
+      assert (Hb3 : BInv (pc_reader P) (p_tbl s) (snd b3)).
+      { eapply gstep_binv; [| | exact E3]; [|intros ? Hx; discriminate Hx].
+        eapply gstep_binv; [| | exact E2]; [|intros ? Hx; discriminate Hx].
+        eapply gstep_binv; [exact I6 | | exact E1]. intros ? Hx; discriminate Hx. }
+      destruct (rev (delivered b3)) as [|it rest] eqn:Er; [inversion H; subst; constructor; assumption|].
+      assert (Hdel : In it (delivered b3)) by (apply in_rev; rewrite Er; left; reflexivity).
+      destruct (item_to_emit (p_tbl s) it) as [eit|] eqn:Eit; [|inversion H; subst; constructor; assumption].
       match type of H with context [emit_filtered ?F ?fu ?re ?wp ?ct ?it] =>
         destruct (emit_filtered F fu re wp ct it) as [evs stop] eqn:Eem end.
       inversion H; subst; clear H. constructor; cbn; try assumption.
@@ -1129,12 +1401,13 @@ Section PipeInv.
       unfold emit_filtered in Eem. inversion Eem; subst; clear Eem.
       apply in_flat_map in Hin as [e' [Hin He]]. unfold queue_event in He.
       destruct (accepts (pc_filter P) (ev_cls e')); [|contradiction]. destruct He as [<-|[]].
-      eapply (emit_paths root Hne Hsep) in Hin.
-      + destruct Hin as [Hin|[Hin _]]; [left; exact Hin | right; exact Hin].
-      + intros r Hr. eapply item_to_emit_raws in Hr as [ix Hix]; [|eassumption].
-        eapply raw_ok_rooted; eauto.
+      eapply (emit_paths_strict root Hne Hsep); [| | exact Hin].
+      + eapply delivered_strict; eauto.
       + intros pp. now apply content_wf.
-    - destruct (gstep (pc_delay P) (p_buf s) (Q (Tick d))); inversion H; subst; constructor; assumption.
+    - destruct (gstep (pc_delay P) (p_buf s) (Q (Tick d))) as [b'|] eqn:Eg;
+        inversion H; subst; [|constructor; assumption].
+      constructor; cbn; try assumption.
+      eapply gstep_binv; [exact I6 | | exact Eg]. intros ? Hx; discriminate Hx.
   Qed.
 
   Theorem prun_inv : forall h s acc s' obs,
@@ -1151,11 +1424,12 @@ Section PipeInv.
   Theorem pipeline_paths w s0 h s obs :
     fs_names_ok (w_fs w) -> (forall o, In (AOp o) h -> op_names_ok o) ->
     pinit P w = Some s0 -> prun P s0 h [] = Done (s, obs) ->
+    path_inv root (p_r s) /\
     (forall i x, In (i, x) (p_tbl s) -> rooted root (r_path x)) /\
-    (forall e, In e (p_out s) -> out_ok e).
+    (forall e, In e (p_out s) -> ev_ok root e).
   Proof.
     intros Hw Hh H0 H. apply pinit_inv in H0; [|exact Hw].
-    destruct (prun_inv h s0 [] s obs H0 Hh H) as [_ _ _ I4 I5]. split; [|exact I5].
+    destruct (prun_inv h s0 [] s obs H0 Hh H) as [_ _ I3 I4 _ _ I7]. split; [exact I3|]. split; [|exact I7].
     intros i x Hin. eapply raw_ok_rooted; eauto.
   Qed.
 End PipeInv.
